@@ -211,7 +211,7 @@ func mutateBytes(r *vlib.R, in []byte) []byte {
 
 func runC12(tier string, _ []string) int {
 	c := vlib.NewCtx("C12", tier, "exploration")
-	c.SetRule("round trips: PRNG points/nodes (hostile strings, float bit patterns incl. NaN payloads, wire-range times, data nil/empty/random) through ToPb/PbDecodePoints, ToPb/PbDecodeNode, Nodes.ToPb/PbDecodeNodes, hand-wrapped NodeRequest/NodesRequest, the four bus message decoders (origin equal to the node / parent id in the subject included); 2-6 encodings (half of them above 4 KiB) made in a row from 12 goroutines and decoded only afterwards; distinct = (codec, count of points, field classes present). decoders: random bytes and mutations (truncate, flip, set, insert, delete, splice, huge varint) of valid encodings (incl. bare 17-20 byte serial frames of every documented subject) into all 9 decoders + 4 subject parsers, a known good message decoded again afterwards (must still be itself); distinct = (decoder, outcome class, input length bucket)")
+	c.SetRule("round trips: PRNG points/nodes (hostile strings, float bit patterns incl. NaN payloads, wire-range times, data nil/empty/random) through ToPb/PbDecodePoints, ToPb/PbDecodeNode, Nodes.ToPb/PbDecodeNodes, hand-wrapped NodeRequest/NodesRequest, the four bus message decoders (origin equal to the node / parent id in the subject included), and serial points through SerialEncode / SerialDecode / PbDecodeSerialPoints with times at and around 0, 2^31, 2^32, 2^33 ns and anywhere in the first eight seconds after the epoch; 2-6 encodings (half of them above 4 KiB) made in a row from 12 goroutines and decoded only afterwards; distinct = (codec, count of points, field classes present). decoders: random bytes and mutations (truncate, flip, set, insert, delete, splice, huge varint) of valid encodings (incl. bare 17-20 byte serial frames of every documented subject) into all 9 decoders + 4 subject parsers, a known good message decoded again afterwards (must still be itself); distinct = (decoder, outcome class, input length bucket)")
 	c.Assume("times limited to 0001..9999 (wire range); tombstone within int32 (wire type)")
 	nRT := c.N(30000, 1500000)
 	nDec := c.N(100000, 5000000)
@@ -386,6 +386,54 @@ func runC12(tier string, _ []string) int {
 			if i < 3 {
 				c.Sample(map[string]any{"kind": "roundtrip", "points": witnessPoints(pts)})
 			}
+		}()
+	}
+
+	// ---- serial points (the wire form used on serial links: value as float32, time as int64 ns): every time,
+	// however close to the epoch or to a power of two, comes back as the same nanosecond
+	nSer := c.N(6000, 200000)
+	serTimes := []int64{0, 1, 2, 999, 1000, 1e6, 1e9, 1e9 + 1, 4e9, 1 << 31, 1<<31 - 1, 1<<32 - 1, 1 << 32, 1<<32 + 1, 1 << 33, -1, -1e9, -(1 << 32), 1 << 53, math.MaxInt64, math.MinInt64 + 1}
+	for i := 0; i < nSer && !vlib.Aborted(); i++ {
+		r := vlib.NewR(c.Seed, "c12serial", i)
+		pts := make(data.Points, 1+r.Intn(3))
+		for j := range pts {
+			pts[j] = genSerialPoint(r)
+			switch r.Intn(4) {
+			case 0:
+				pts[j].Time = time.Unix(0, serTimes[(i+j)%len(serTimes)])
+			case 1: // anywhere in the first seconds after the epoch
+				pts[j].Time = time.Unix(0, r.Int63n(1<<33))
+			}
+		}
+		c.Eval(1)
+		func() {
+			defer func() {
+				if e := recover(); e != nil {
+					c.Violate("wire:roundtrip-panic", fmt.Sprint("panic in serial point round trip: ", e), witnessPoints(pts))
+				}
+			}()
+			pk, err := client.SerialEncode(byte(i), "p.abcd", pts)
+			if err != nil {
+				c.Violate("wire:points-encode-error", "SerialEncode: "+err.Error(), witnessPoints(pts))
+				return
+			}
+			_, _, payload, err := client.SerialDecode(pk)
+			if err != nil {
+				c.Violate("wire:points-decode-error", "SerialDecode of a packet just built: "+err.Error(), witnessPoints(pts))
+				return
+			}
+			back, err := data.PbDecodeSerialPoints(payload)
+			if err != nil || len(back) != len(pts) {
+				c.Violate("wire:points-decode-error", fmt.Sprintf("PbDecodeSerialPoints: %v (%d points for %d)", err, len(back), len(pts)), witnessPoints(pts))
+				return
+			}
+			for j := range pts {
+				if d := serialPointDiff(pts[j], back[j]); d != "" {
+					c.Violate("wire:point-field-changed", fmt.Sprintf("serial point round trip changed %s of point %d: sent t=%d ns, got t=%d ns", d, j, pts[j].Time.UnixNano(), back[j].Time.UnixNano()), witnessPoints(pts))
+					return
+				}
+			}
+			c.Count("serial_point_round_trips", 1)
 		}()
 	}
 
